@@ -67,7 +67,7 @@ def check_forces(lib, host, part, desc, replay):
     tag = "cone=%s solver=%s noslip=%s" % (cone, solver, noslip)
 
     def bad(what, detail):
-        part.violation("%s | %s" % (what, tag), "%s: %s (%s; mix=%s eq=%s skel=%s)" % (
+        C.report(part, "%s | %s" % (what, tag), "%s: %s (%s; mix=%s eq=%s skel=%s)" % (
             what, detail, tag, "+".join(host.atoms), host.eqkind, host.skel), replay)
     if not np.all(np.isfinite(f)):
         bad("efc_force not finite", "nan/inf in efc_force")
@@ -159,12 +159,12 @@ def _chunk(chunk):
         try:
             host = C.Host(lib, skel, atoms, eqkind)
         except mj.MjError as e:
-            part.violation("host model does not compile", "skel=%s mix=%s eq=%s: %s" % (skel, atoms, eqkind, e),
+            C.report(part, "host model does not compile", "skel=%s mix=%s eq=%s: %s" % (skel, atoms, eqkind, e),
                            {"skel": skel, "atoms": atoms, "eq": eqkind})
             continue
         cones = ([(C.CONE_PYRAMIDAL, 1.0), (C.CONE_PYRAMIDAL, 4.0), (C.CONE_ELLIPTIC, 1.0), (C.CONE_ELLIPTIC, 4.0)]
                  if thorough else [(C.CONE_PYRAMIDAL, 1.0), (C.CONE_ELLIPTIC, 4.0)])
-        states = host.state_space(nq=2, nvel=3) if thorough else [s for s in host.state_space(nq=2, nvel=2) if s[0] == 1]
+        states = host.state_space(nq=2, nvel=3) if thorough else [s for s in host.state_space(nq=2, nvel=3) if s[0] == 1 and s[1] != 0]
         for st in states:
             info = host.apply_state(st)          # state lives in (m, d); options below do not touch it
             first = True
@@ -182,7 +182,7 @@ def _chunk(chunk):
                                     try:
                                         lib.mj_forward(host.m, host.d)
                                     except mj.MjError as e:
-                                        part.violation("engine error | solver=%s" % SOLVER_NAME[solver],
+                                        C.report(part, "engine error | solver=%s" % SOLVER_NAME[solver],
                                                        "mju_error in mj_forward: %s" % e, replay)
                                         host.d.free()
                                         host.d = lib.make_data(host.m)
@@ -220,7 +220,25 @@ def run(ctx):
                 "noslip{0,3} x iterations{2,100} x jacobian{dense,sparse} x island{on,off}; evaluation = one mj_forward with all "
                 "oracles; non-trivial = distinct (skeleton, mix, cone, impratio, state) with a non-zero constraint force"
                 % (skels, "{pyr,ell}x{1,4}" if ctx.thorough else "{pyr/1, ell/4}", C.CONTACT_DIST, C.LIMIT_STATE_NAME,
-                   "2 configurations x 3 velocity patterns" if ctx.thorough else "bent configuration x 2 velocity patterns"))
+                   "2 configurations x 3 velocity patterns" if ctx.thorough else "bent configuration x 2 non-zero velocity patterns"))
     ctx.assumptions = ["cone membership, J'f and pyramid decoding re-implemented in numpy from doc/computation",
                        "mj_jac trusted for the virtual-work identity (C07)", "no adhesive contacts in the lattice",
                        "tolerance 1e-9 x max(1, |f|max)"]
+
+
+def replay(ctx, path):
+    """./check C11 --replay <file>: re-run the recorded (model, state, options)."""
+    import json
+    r = json.load(open(path))["replay"]
+    lib = mj.load()
+    host = C.Host(lib, r["skel"], tuple(r["atoms"]), r["eq"])
+    part = core.Part()
+    host.apply_state(tuple(r["state"]))
+    host.set_options(cone=int(r["cone"]), impratio=float(r["impratio"]), solver=int(r["solver"]), noslip=int(r["noslip"]),
+                     iterations=int(r["iterations"]), jacobian=int(r["jacobian"]), island=bool(r["island"]), tolerance=1e-10)
+    lib.mj_forward(host.m, host.d)
+    check_forces(lib, host, part, (CONE_NAME[int(r["cone"])], SOLVER_NAME[int(r["solver"])], "on" if r["noslip"] else "off"), r)
+    for v in part["violations"]:
+        print("VIOLATION-REPLAY %s\n  %s" % (v["key"], v["what"]))
+    print("replay: %d violations" % len(part["violations"]))
+    return 1 if part["violations"] else 0
